@@ -417,9 +417,54 @@ package cputensor
 
 /* ---------------- operators.go (dot / matmul / equals) ---------------- */
 
+// dot: the batch generator enumerates the leading rank-1 positions; each element is the dot product of the two rows
+// reached by dataAt, which is the partial-sum definition of dsum (domain: dsumK)
+//@ define dsumKExtBody(k) := forallT(p, forallT(q, forallJ(J, forallJ(K, imp(rank(q) == rank(p) && sameOn(J, K, 0, rank(p) - 1), dsumK(p, q, J, k) == dsumK(p, q, K, k))))))
+//@ induct dsumKExt: up dsumKExtBody
+//@ lemma dsumMix: forallT(p, forallT(q, forallJ(P, forallJ(J, imp(rank(q) == rank(p) && rank(p) >= 1, dsum(p, q, mix(P, J, 0, rank(p) - 1)) == dsum(p, q, J)))))) @uses dsumKExt
+//@ define dataDotElBody(k) := forallT(t, forallT(u, forallD(a, forallD(b, forallJ(J, imp(forall(i, 0, k, fval(child(a, i)) == el(t, upd(J, rank(t) - 1, i)) && fval(child(b, i)) == el(u, upd(J, rank(t) - 1, i))),
+//@                dataDot(a, b, k) == dsumK(t, u, J, k)))))))
+//@ induct dataDotEl: up dataDotElBody
+
+//@ func dotProductOf1DInputs
+//@   requires isS(a) && isS(b) && slen(a) <= slen(b) && forall(i, 0, slen(a), isF(child(a, i)) && isF(child(b, i)))
+//@   ensures c == mkF(dataDot(a, b, slen(a)))
+//@   loop 0 invariant 0 <= i && i <= n && s == dataDot(a, b, i)
+//@   loop 0 decreases n - i
+
+//@ func linearLastDimDotProductElemGenerator
+//@   requires t1 != nil && t2 != nil && published(t1) && published(t2) && sameShape(t1, t2) && rank(t1) >= 1
+//@   uses dimsLink
+//@   returns fresh
+//@   modifies genIdx(res)
+//@   ensures res != nil && genRank(res) == rank(t1) - 1 && forall(k, 0, rank(t1) - 1, genShape(res)[k] == dim(t1, k)) && genIdx(res) == zeroIdx()
+//@   ensures forallJ(Q, genAt(res, Q) == mkF(dsum(t1, t2, Q)))
+//@ func linearLastDimDotProductElemGenerator#0
+//@   implements cputensor.initializerFunc
+//@   uses dimsLink, dataLink
+//@   modifies state
+//@   yields genRank(self) == rank(t1) - 1 && forall(k, 0, rank(t1) - 1, genShape(self)[k] == dim(t1, k)) && forallJ(Q, genAt(self, Q) == mkF(dsum(t1, t2, Q)))
+//@   invariant t1 != nil && t2 != nil && published(t1) && published(t2) && sameShape(t1, t2) && rank(t1) >= 1 && n == rank(t1) - 1 && len(state) == n
+//@   invariant len(dims) == rank(t1) && forall(k, 0, rank(t1), dims[k] == dim(t1, k))
+//@   invariant imp(genIdx(self)[0-1] == 0, forall(k, 0, n, state[k] == genIdx(self)[k]))
+//@   loop 0 invariant 0-1 <= i && i < n && len(state) == n
+//@   loop 0 invariant forall(k, 0, n, imp(k > i, old(state[k]) == dims[k] - 1 && state[k] == 0))
+//@   loop 0 invariant forall(k, 0, n, imp(k <= i, state[k] == old(state[k])))
+//@   loop 0 decreases i + 1
+//@   have isS(data1) && isS(data2) && slen(data1) == dim(t1, n) && slen(data2) == dim(t1, n)
+//@   have forall(i, 0, dim(t1, n), isF(child(data1, i)) && isF(child(data2, i)))
+//@   have forall(i, 0, dim(t1, n), fval(child(data1, i)) == leafv(data1, upd(old(genIdx(self)), n, i), n) && fval(child(data2, i)) == leafv(data2, upd(old(genIdx(self)), n, i), n))
+//@   have forall(i, 0, dim(t1, n), fval(child(data1, i)) == el(t1, upd(old(genIdx(self)), n, i)) && fval(child(data2, i)) == el(t2, upd(old(genIdx(self)), n, i)))
+//@   have prodRes == mkF(dsumK(t1, t2, old(genIdx(self)), dim(t1, n))) @uses dataDotEl
+//@   have dsum(t1, t2, old(genIdx(self))) == dsumK(t1, t2, old(genIdx(self)), dim(t1, n))
+//@   have prodRes == genAt(self, old(genIdx(self)))
+
 //@ func CPUTensor.dot
-//@   requires u != nil && sameShape(t, u) && rank(t) >= 1
-//@   assumed L2 batch generator + dotProductOf1DInputs; bounded stand-in: rac TestLinalg
+//@   requires published(t) && u != nil && published(u) && sameShape(t, u) && rank(t) >= 1
+//@   uses dimsLink, filledWF, filledEl, wfExt
+//@   have genFloat(elemGen) && rank(o) == rank(t) - 1
+//@   have forallJ(J, imp(inb(o, J), el(o, J) == fval(genAt(elemGen, mix(zeroIdx(), J, 0, rank(t) - 1)))))
+//@   have forallJ(J, imp(inb(o, J), el(o, J) == dsum(t, u, J))) @uses dsumMix
 //@   returns fresh
 //@   ensures o != nil && rank(o) == rank(t) - 1 && forall(k, 0, rank(o), dim(o, k) == dim(t, k))
 //@   ensures forallJ(J, imp(inb(o, J), el(o, J) == dsum(t, u, J)))
